@@ -76,5 +76,12 @@ PROPS["C12"] = {
     "assumptions": [], "outside": "",
 }
 
+PROPS["C16"] = {
+    "programs": {"quick": [P("test", "VerifFileWriteFaults", must_reach=("end","fault-delivered"), w=2, k=1, maxlen=5),
+                           P("test", "VerifDirWriteFaults", must_reach=("end","fault-delivered","sharded"), entries=2)]},
+    "bounds": {"quick": "files 0..5 chunks w=2; dirs 2 entries fanout 8 depth<=2; symlink; every k-th open/commit failing"},
+    "assumptions": [], "outside": "",
+}
+
 NOT_APPLICABLE = {}
 NOTES = "All checks are bounded: every result reads 'holds for all values within the bounds recorded in the evidence file; nothing is claimed outside them'. exit 2 = inconclusive (never a pass)."
